@@ -131,6 +131,14 @@ func (c *crashRun) runTo(open Opener, k int64, trace bool) (*vfs.MemFS, *FSCtl, 
 		atomic.StoreInt64(&ctl.Inflight, int64(i))
 		err, panicked := s.ExecSafe(o, c.w.models[i])
 		atomic.StoreInt64(&ctl.Inflight, -1)
+		if cut, _, _ := ctl.Cut(); cut {
+			// the power went off before or while this call ran (the cut may fire on a
+			// background goroutine of the store - Tan's obsolete file deleter, Pebble's
+			// flush/compaction - in the window between the check at the top of the loop
+			// and the start of the call): the call is not acknowledged. When the cut
+			// fired inside the call, ctl recorded it as the call in flight.
+			break
+		}
 		if err != nil {
 			_ = panicked
 			_ = s.Close()
